@@ -1,45 +1,13 @@
-"""Per-property configuration of the checks."""
+"""Per-property configuration of the checks: one fragment per property in vf/props.d/Cxx.py
+defining PROP = dict(...)."""
+import glob
+import os
 
 PROPS = {}
 NOT_APPLICABLE = {}
 HOOK_COMMITS = []
 
-PROPS["C06"] = dict(
-    title="Checked conversions and integer helpers equal their mathematical definition",
-    level="exploration",
-    engine="E",
-    technique="exhaustive enumeration of all 8/16-bit values and pairs and of the 32/64-bit boundary lattice against a 128-bit oracle",
-    level_text=("Every argument tuple of the stated finite domains is evaluated on the real templates and compared with exact 128-bit "
-                "arithmetic; for 8/16-bit instantiations this is the complete input space, which is what a for-all-values claim about "
-                "conversions needs and what no sampled test gives."),
-    level_note="32/64-bit instantiations only on the boundary lattice; oracle = __int128 arithmetic in the harness; UBSan aborts are attributed to the announced case",
-    binaries=[dict(name="C06", sources=["harness/C06.cpp"], libs=[], flavour="ubsan")],
-    deadline={"quick": 240, "thorough": 1500},
-    rule=("nested loops over explicit domains: every value of each 8/16-bit type (all 64 source/dest pairs for "
-          "truncation_check; all pairs for div/mod/diff on 8 bit, on 16 bit in the thorough tier), the boundary lattice "
-          "{0,+-1,+-(2^k-1),+-2^k,+-(2^k+1),min,max,...} for 32/64 bit, dense squares for ceil_div(_signed); oracle = __int128 "
-          "arithmetic; a case is non-trivial when it sits at or across a type/size boundary, has a non-zero remainder, a negative "
-          "operand or differs from its operand (per-function predicate in harness/C06.cpp); cases are distinct argument tuples"),
-    assumptions=["cases whose exact result is not representable in the result type are skipped (statement: 'whenever it is representable')",
-                 "log2(0) is documented as undefined and skipped",
-                 "32/64-bit types are covered on the boundary lattice only",
-                 "interval_distance is compared only where its documentation is unambiguous (no shared end point with containment)"],
-)
-
-PROPS["C07"] = dict(
-    title="raw_vector and buffer behave like std::vector for every operation history",
-    level="model_checking",
-    engine="H",
-    technique="explicit-state BFS over operation histories of the real raw_vector/buffer with std::vector as lock-step reference, to a fix-point inside size caps",
-    level_text=("Breadth-first search over all operation histories (every constructor, every position/count/aliasing choice) executed on the real "
-                "container with a counting allocator under ASan, deduplicated by canonical state and run to a fix-point inside the size caps: "
-                "the claim then covers histories of any length that stay inside the caps, which is what 'for every operation history' needs."),
-    level_note="size caps (single vector 5/6, pair 2/3, buffer read area 3/4); element type int; capacity slack is truncated in the canonical state (argument in harness/C07.cpp); std::vector is the trusted reference",
-    binaries=[dict(name="C07", sources=["harness/C07.cpp"], libs=[], flavour="asan")],
-    deadline={"quick": 300, "thorough": 1500},
-    rule=("BFS over histories of raw_vector/buffer operations; a transition is non-trivial when it changes the canonical state "
-          "(contents, truncated capacity slack, null-storage flag); states are distinct canonical keys"),
-    assumptions=["moved-from source of a move *assignment* is 'valid but unspecified': the model adopts what the implementation left there after checking size<=capacity",
-                 "positions outside [begin,end], self-range insertion and written(k>write_size) are preconditions and outside the alphabet",
-                 "128-bit hashes of canonical strings are used for deduplication (collision probability negligible)"],
-)
+for _f in sorted(glob.glob(os.path.join(os.path.dirname(os.path.abspath(__file__)), "props.d", "C*.py"))):
+    _ns = {}
+    exec(compile(open(_f).read(), _f, "exec"), _ns)
+    PROPS[os.path.basename(_f)[:-3]] = _ns["PROP"]
